@@ -81,3 +81,36 @@ End Protocol.
 Definition Inv (f bk : path) (orig fmt : text) (s : fsstate) : Prop :=
   (s f = Some orig \/ s bk = Some orig) /\
   (forall b, s f = Some b -> b = orig \/ b = fmt).
+
+(* ---------------------------------------------------------------------------------------------
+   The names.  files_with_backup.rs (after the repair of the name collision):
+       let (tmp_name, bk_name) = match filename.extension().and_then(|ext| ext.to_str()) {
+           Some("tmp") | Some("bk") => (append(".tmp"), append(".bk")),      // FILE.tmp / FILE.bk: append
+           _ => (filename.with_extension("tmp"), filename.with_extension("bk")),
+       };
+   A file name is modelled as its stem and its extension (Path::file_stem / Path::extension: the part after the
+   last dot of a name that does not start with the dot; None = no extension).  with_extension replaces the
+   extension; appending keeps the whole name as the new stem. *)
+Definition fname : Type := (text * option text)%type.
+Definition T_TMP : text := [116; 109; 112].
+Definition T_BK : text := [98; 107].
+Definition DOT : N := 46.
+Definition eqb_fname (a b : fname) : bool :=
+  eqb_text (fst a) (fst b) &&
+  match snd a, snd b with
+  | None, None => true
+  | Some x, Some y => eqb_text x y
+  | _, _ => false
+  end.
+(* the name as written: stem, or stem.ext *)
+Definition whole (f : fname) : text :=
+  match snd f with None => fst f | Some e => fst f ++ DOT :: e end.
+Definition with_extension (f : fname) (e : text) : fname := (fst f, Some e).
+Definition append_ext (f : fname) (e : text) : fname := (whole f, Some e).
+(* before the repair: always with_extension *)
+Definition tmp_name_pre (f : fname) : fname := with_extension f T_TMP.
+Definition bk_name_pre (f : fname) : fname := with_extension f T_BK.
+Definition collides (f : fname) : bool :=
+  match snd f with Some e => eqb_text e T_TMP || eqb_text e T_BK | None => false end.
+Definition tmp_name (f : fname) : fname := if collides f then append_ext f T_TMP else with_extension f T_TMP.
+Definition bk_name (f : fname) : fname := if collides f then append_ext f T_BK else with_extension f T_BK.
